@@ -415,6 +415,30 @@ Definition advance_overdue (oc : bool) (I served : Z) (txs : list stx) (ws : lis
   end.
 
 (* ------------------------------------------------------------------------------------------ *)
+(** * Rebuild of an expired transfer (engine.rs [rebuild_expired_transfer_inner]): the scheduling
+      half. The part is rescheduled one freshly drawn transfer delay past the chain base (the
+      latest scheduled height among the still-pending transfers, clamped below by the target
+      [tip + 1]); its expiry is the canonical expiry of the NEW schedule; its anchor is drawn
+      against the NEW schedule's height. One stream serves both draws: [ds] are the candidate
+      delays of the words [ws] (same length). [Err tt] = RebuildError::NoCandidateAnchor. *)
+Definition chain_base (tip : Z) (pend : list Z) : Z := fold_left Z.max pend (sat_add_u32 tip 1).
+
+Definition rebuild_schedule (oc : bool) (I cap nu63 funding tip : Z) (pend ws ds : list Z)
+  : outcome (Z * Z * option Z) unit :=
+  let base := chain_base tip pend in
+  match delay_draw cap ds with
+  | Ok (d, rest) =>
+      let k := (length ds - length rest)%nat in
+      let sched := sat_add_u32 base d in
+      match draw_anchor_boundary oc I nu63 funding sched (skipn k ws) with
+      | Ok (Some b, _) => Ok (sched, expiry_height sched, Some b)
+      | Ok (None, _) => Err tt
+      | _ => Panic
+      end
+  | _ => Panic
+  end.
+
+(* ------------------------------------------------------------------------------------------ *)
 (** * Classification *)
 
 Record evidence := mkEv {
